@@ -11,14 +11,16 @@ ID = "C14"
 COQ_PROPERTY_FILE = "Properties/C14.v"
 COQ_DEPS = ["Generated/Tables.v", "Model/Devs.v", "Model/DevsSpec.v", "Model/Heap.v", "Model/DevsHeap.v", "Proofs/DevsProofs.v", "Proofs/DevsOrderProofs.v",
             "Proofs/DevsOnceProofs.v", "Proofs/DevsLiveProofs.v", "Proofs/DevsAtomicProofs.v", "Proofs/DevsChunkProofs.v",
-            "Proofs/DevsStepProofs.v", "Proofs/DevsTopProofs.v", "Proofs/DevsTop14Proofs.v", "Proofs/HeapProofs.v", "Proofs/DevsHeapProofs.v", "Proofs/DevsHeapSimProofs.v"]
+            "Proofs/DevsStepProofs.v", "Proofs/DevsTopProofs.v", "Proofs/DevsTop14Proofs.v", "Proofs/HeapProofs.v", "Proofs/DevsHeapProofs.v", "Proofs/DevsHeapSimProofs.v", "Proofs/DevsBridge.v"]
 COQ_IMPORTS = "From Mesa Require Import Generated.Tables Model.Devs."
 COQ_CASE_TYPE = "case"
 COQ_RUN = "run_case"
 if D.HEAP_TIE:      # VERIF_HEAPQ_TIE=1 ./check C14: the model that keeps the heapq array, observations + array order
     COQ_IMPORTS = "From Mesa Require Import Generated.Tables Model.Devs Model.DevsHeap."
     COQ_RUN = "run_case_heap"
-TABLE_CONSTRUCTS = ["devs_priority_values", "devs_event_key", "devs_step_priority"]
+TABLE_CONSTRUCTS = ["devs_priority_values", "devs_event_key", "devs_step_priority",
+                    "devs_skeleton", "devs_rel_code", "devs_abs_code", "devs_now_code", "devs_tick_code", "devs_schedule_event_code", "devs_run_for_code",
+                    "devs_until_code", "devs_until_abm_code", "devs_abm_resched_code", "devs_execute_code", "devs_pop_code", "devs_peek_keeps_code", "devs_peek_full_code"]
 S = D.S
 
 
@@ -248,6 +250,7 @@ RULE = ("histories = one simulator (ABMSimulator or DEVSimulator, after setup) +
 TRUSTED_BASE = [
     "Coq 8.16.1 kernel (coqc); vm_compute for finite facts and for evaluating the model in the correspondence",
     "no axioms: Print Assumptions reports 'Closed under the global context' for every C14 theorem",
+    "harness/pyexpr.py + harness/tables/devs_code.py (code-level T1): guards, time arithmetic and loop decisions of the simulators and the event list translated to Gallina; their statement skeletons",
     "harness/tables/devs.py (T1): Priority values, the SimulationEvent.__lt__ tuple, the priority of model.step",
     "harness/props/devs_common.py driver+observer+Gallina printer (T2, differential testing, not a proof)",
     "Model/Devs.v is a hand transcription of eventlist.py/simulator.py; the heap is abstracted as a list ordered by __lt__ - justified by "
